@@ -3,6 +3,8 @@
 package strategy
 
 import (
+	corev1 "k8s.io/api/core/v1"
+
 	"time"
 
 	metav1 "k8s.io/apimachinery/pkg/apis/meta/v1"
@@ -64,4 +66,34 @@ func ZZ_C16_noPanicStrategy() {
 	nondet.Reach("C16.strategy.ok", err == nil)
 	nondet.Reach("C16.strategy.error", err != nil)
 	nondet.Reach("C16.strategy.zero-interval", ru.SlowStartIntervalDuration.Duration == 0)
+}
+
+// ZZ_C16_noPanicSubSecondInterval: the part of the duration lattice ZZ_C16_noPanicStrategy leaves out
+// to keep its integer encoding exact: a slowStartIntervalDuration strictly between 0 and one second
+// (the CRD takes any duration string: "500ms", "1ns"), here with small increases so that the ramp stays
+// inside the machine word.  Defaulting keeps the value, validation accepts it, and a rolling-update sync
+// of an active replica set — just activated or active for up to ten minutes — returns a result.
+func ZZ_C16_noPanicSubSecondInterval() {
+	ds := zzDaemonset(map[string]string{})
+	ru := &ds.Spec.Strategy.RollingUpdate
+	iv := nondet.Duration("interval", 1, time.Second-1)
+	ru.SlowStartIntervalDuration = &metav1.Duration{Duration: iv}
+	inc := intstr.FromInt(int(nondet.Int32("increase", 1, 3)))
+	ru.SlowStartAdditiveIncrease = &inc
+	maxPar := nondet.Int32("maxParallel", 1, 4)
+	ru.MaxParallelPodCreation = &maxPar
+	datadoghqv1alpha1.DefaultExtendedDaemonSetSpec(&ds.Spec, datadoghqv1alpha1.ExtendedDaemonSetSpecStrategyCanaryValidationModeAuto)
+	nondet.Assert("C16.subsecond.accepted", datadoghqv1alpha1.ValidateExtendedDaemonSetSpec(&ds.Spec) == nil && ru.SlowStartIntervalDuration.Duration == iv)
+	rs := zzReplicaSet()
+	since := nondet.Int("activeSinceSec", 0, 600)
+	at := metav1.NewTime(nondet.Base().Add(-time.Duration(since) * time.Second))
+	rs.Status.Conditions = []datadoghqv1alpha1.ExtendedDaemonSetReplicaSetCondition{{Type: datadoghqv1alpha1.ConditionTypeActive, Status: corev1.ConditionTrue, LastTransitionTime: at, LastUpdateTime: at}}
+	params, _ := zzParams(ds, rs, []int{zzNoPod, zzNoPod, zzOutdatedAvailable})
+	res, err := ManageDeployment(fakeapi.New(), ds, params, metav1.NewTime(nondet.Base()))
+	nondet.Assert("C16.subsecond.result-or-error", res != nil)
+	if err == nil {
+		nondet.Assert("C16.subsecond.plan-sane", len(res.PodsToCreate) <= 2 && len(res.PodsToCreate) <= int(maxPar))
+	}
+	nondet.Observe("nCreate", len(res.PodsToCreate))
+	nondet.Reach("C16.subsecond.creates", err == nil && len(res.PodsToCreate) >= 1)
 }
